@@ -110,10 +110,32 @@ class AsciiGen(ValueGen):
     """mostly printable strings, so that the JSON form can be read back (non-UTF-8 strings in JSON are C05's subject)"""
 
     def string(self):
-        if self.rng.random() < 0.85:
+        x = self.rng.random()
+        if x < 0.65:
             l = self.rng.choice([0, 1, 1, 2, 3, 5, 8, 13, 40])
             return bytes(self.rng.choice(b"abcdefXYZ019_-") for _ in range(l))
+        if x < 0.85:
+            # every character the JSON string writers treat specially (valid UTF-8, so the JSON is still re-readable):
+            # the two writers (string / []byte flavour) must escape them identically
+            l = self.rng.choice([1, 2, 3, 5, 8])
+            special = [bytes([c]) for c in range(0x20)] + [b'"', b"\\", b"/", b"<", b">", b"&", b"\x7f",
+                                                           "\u2028".encode(), "\u2029".encode(), "\u00e9".encode(), "\U0001f600".encode()]
+            return b"".join(self.rng.choice(special) if self.rng.random() < 0.7 else bytes([self.rng.choice(b"abXY01")]) for _ in range(l))
         return super().string()
+
+    def sort_entries(self, p, es):
+        # dictionary KEYS stay plain: the generated dictionary JSON readers do not unescape keys (C05's finding F17), which makes
+        # both variants hold the same wrong key but emit entries in different orders -- not a disagreement between the variants
+        if p == "string":
+            plain = []
+            for e in es:
+                k = e[1][0]
+                if k is not None and any(c < 0x20 or c >= 0x7f or c in b'"\\/<>&' for c in k[1]):
+                    k = (k[0], bytes(c for c in k[1] if 0x20 <= c < 0x7f and c not in b'"\\/<>&'))
+                    e = (e[0], [k] + list(e[1][1:]))
+                plain.append(e)
+            es = plain
+        return super().sort_entries(p, es)
 
 
 class UnsortedGen(ValueGen):
